@@ -71,6 +71,18 @@ CHECKS = {
             "setups, versions 5-14, key mods 1K-10K) and fixture windows are recorded and TLC validates each against the well-formedness "
             "predicates (order, durations, taiko originals keep order and their own sound, catch untouched, mania columns, control points).",
             "DESIGN.md 3/C19", "TLC decision-table check + replay, and trace validation of recorded conversions"),
+    "C04": ("spec/Builders.tla (MapOrAttrs machine) + MC_Builders.tla aspect entry; harness builders-replay", "model_checking",
+            "The performance builder is modelled as holding a map or attributes with a ghost recording which settings the attributes "
+            "were made with; TLC enumerates every entry point x history of setter calls and generate_state() and emits what calculate() "
+            "must evaluate; every history is replayed through all 8 real entry points in all four modes and compared bitwise with the "
+            "reference built from one-shot attributes, and the embedded difficulty attributes with the one-shot difficulty calculation.",
+            "DESIGN.md 3/C04", "TLA+ model checking (TLC) + spec-to-impl replay of every entry-point history"),
+    "C18": ("spec/Builders.tla (setters, clamps, forwarding table) + MC_Builders.tla aspect setters; harness builders-replay", "model_checking",
+            "Clamps, last-write-wins, commutation of independent setters and the inspect round trip are invariants over all setter "
+            "sequences; every sequence is replayed on Difficulty (inspect() compared with the model) and on the Performance builder of "
+            "every mode (builder equality with the forwarding table, result equality with handing over the Difficulty, so ignored "
+            "setters leave the result untouched).",
+            "DESIGN.md 3/C18", "TLA+ model checking (TLC) + spec-to-impl replay of every setter sequence"),
 }
 
 NOT_YET = {
